@@ -120,7 +120,14 @@ Definition new_dd_block (fr : frec) : frec * wlog :=
       (set_end fr3 (newblock_end off ndds), w1 ++ w2 ++ w3)
   end.
 
-(** HTPcreate: slot for a new descriptor (tag, ref) with invalid offset/length *)
+(** HTPcreate first refuses a tag/ref that is already in use (HTIfind_dd through the tag tree, which is keyed by the
+    base tag and holds every non-NIL descriptor), before any descriptor slot is claimed: [has_dd] *)
+Definition basetag (t : Z) : Z := if Z.land t 32768 =? 0 then Z.land t 49151 else t.
+Definition has_dd (fr : frec) (tag ref : Z) : bool :=
+  existsb (fun d => negb (d_tag d =? DFTAG_NULL) && (basetag (d_tag d) =? basetag tag) && (d_ref d =? ref))
+          (flat_map (fun mb => b_dds (m_blk mb)) (f_blocks fr)).
+
+(** HTPcreate (after the duplicate check): slot for a new descriptor (tag, ref) with invalid offset/length *)
 Definition create_dd (fr : frec) (tag ref : Z) : (nat * nat) * frec * wlog :=
   let '(slot, fr1, w1) :=
     match find_null (f_blocks fr) with
@@ -132,6 +139,7 @@ Definition create_dd (fr : frec) (tag ref : Z) : (nat * nat) * frec * wlog :=
 
 (** Hstartwrite(tag, ref, len); Hwrite(data) when data is not empty; Hendaccess -- on a NEW tag/ref *)
 Definition op_put (fr : frec) (tag ref len : Z) (data : list Z) : frec * wlog :=
+  if has_dd fr tag ref then (fr, []) else
   let '(slot, fr1, w1) := create_dd fr tag ref in
   let '(off, fr2, w2) := getdiskblock fr1 len in
   let '(fr3, w3) := update_dd fr2 (fst slot) (snd slot) (mkdd tag ref off len) in
@@ -156,6 +164,7 @@ Fixpoint app_writes (fr : frec) (slot : nat * nat) (tag ref off posn : Z) (chunk
   end.
 
 Definition op_app (fr : frec) (tag ref : Z) (chunks : list (list Z)) : frec * wlog :=
+  if has_dd fr tag ref then (fr, []) else
   let '(slot, fr1, w1) := create_dd fr tag ref in
   match chunks with
   | [] => (fr1, w1)
